@@ -1301,6 +1301,20 @@ func (w *vC43World) randMedia() {
 	}
 }
 
+// an entry of the permission table, mostly one that admits a client (not a proxy / forwarder address)
+func (w *vC43World) admittedEntry() [3]int {
+	var cl [][3]int
+	for _, t := range w.perm {
+		if t[2] < 3 && t[0] < 2 {
+			cl = append(cl, t)
+		}
+	}
+	if len(cl) > 0 && w.r.Chance(7, 8) {
+		return cl[w.r.Intn(len(cl))]
+	}
+	return w.perm[w.r.Intn(len(w.perm))]
+}
+
 func (w *vC43World) randMulti() {
 	r := w.r
 	p := r.Intn(vC43NPaths)
@@ -1308,8 +1322,8 @@ func (w *vC43World) randMulti() {
 		p = r.Intn(2)
 	}
 	cred, ip := r.Intn(3), r.Intn(3)
-	if r.Chance(2, 3) && len(w.perm) > 0 { // mostly an admitted combination
-		t := w.perm[r.Intn(len(w.perm))]
+	if r.Chance(3, 4) && len(w.perm) > 0 { // mostly an admitted combination
+		t := w.admittedEntry()
 		if r.Chance(3, 4) {
 			p = t[0]
 		}
@@ -1510,8 +1524,8 @@ func vC43RunHistory(idx int, seed uint64) (res vC43Result) {
 			w.pathReady(1)
 		}
 	}
-	for i := r.Intn(3); i > 0 && len(perm) > 0; i-- { // usually start with admitted clients
-		t := perm[r.Intn(len(perm))]
+	for i := 1 + r.Intn(3); i > 0 && len(perm) > 0; i-- { // start with admitted clients
+		t := w.admittedEntry()
 		w.multi(t[0], t[1], w.randNet(t[2]), 0, true, r.Bool())
 	}
 	for i := 0; i < nops && w.bad == ""; i++ {
